@@ -136,14 +136,19 @@ def grammar():
     links.append(L([('BB', 0), ('BB', 1)], inter=[bond(0, 1)], non_edges=[(0, 'BB', -1), (0, 'SC1', 0)], label='two non-edges, other order'))
     links.append(L([('BB', 0), ('BB', 1)], inter=[bond(0, 1)], non_edges=[(0, 'SC1', 1), (0, 'BB', -1)], label='two non-edges, first never applies'))
     links.append(L([('BB', 0), ('BB', 1)], inter=[bond(0, 1)], non_edges=[(0, 'BB', 2), (0, 'BB', -1), (0, 'SC1', 3)], label='three non-edges'))
+    # the partner of a non-edge re-specifies an attribute the link header sets for all atoms
+    links.append(L([('BB', 0), ('BB', 1)], inter=[bond(0, 1)], attrs={'resname': ['choice', 'ALA', 'GLY', 'LYS']},
+                   non_edges=[(0, 'BB', -1, {'resname': 'GLY'})], label='non-edge partner overrides header attribute (GLY)'))
+    links.append(L([('BB', 0), ('BB', 1)], inter=[bond(0, 1)], attrs={'resname': ['not', 'LYS']},
+                   non_edges=[(0, 'BB', -1, {'resname': 'ALA'})], label='non-edge partner overrides header attribute (ALA)'))
     # patterns
     links.append(L([('BB', 0), ('BB', 1)], inter=[bond(0, 1)], patterns=[[(0, {'resname': 'ALA'}), (1, {})]], label='one pattern'))
     links.append(L([('BB', 0), ('BB', 1)], inter=[bond(0, 1)],
                    patterns=[[(0, {'resname': 'GLY'}), (1, {'resname': 'GLY'})], [(0, {}), (1, {'resname': 'ALA'})]], label='two patterns'))
     # molecule meta
     links.append(L([('BB', 0), ('BB', 1)], inter=[bond(0, 1)], molmeta={'flag': True}, label='molmeta satisfied'))
-    links.append(L([('BB', 0), ('BB', 1)], inter=[bond(0, 1)], molmeta={'flag': False}, label='molmeta not satisfied'))
-    links.append(L([('BB', 0), ('BB', 1)], inter=[bond(0, 1)], molmeta={'other': 1}, label='molmeta absent'))
+    links.append(L([('BB', 0), ('BB', 1)], inter=[bond(0, 1)], molmeta={'flag': False}, label='molmeta not satisfied (never fits)'))
+    links.append(L([('BB', 0), ('BB', 1)], inter=[bond(0, 1)], molmeta={'other': 1}, label='molmeta absent (never fits)'))
     # payloads
     links.append(L([('BB', 0), ('BB', 1)], inter=[('bonds', (0, 1), ['1', ['dist', 0, 1], '1250'], {})], label='dist() parameter'))
     links.append(L([('BB', -1), ('BB', 0), ('BB', 1)], inter=[('angles', (0, 1, 2), ['2', ['angle', 0, 1, 2], '20'], {})], label='angle() parameter'))
@@ -159,7 +164,9 @@ def grammar():
     links.append(L([('BB', 0), ('BB', 1)], inter=[bond(0, 1, '0.37', {'comment': 'stiff'})], label='bond with comment'))
     links.append(L([('BB', 0), ('BB', 1)], removed=[('bonds', (0, 1), [], {'version': 2})], edges=[(0, 1)], label='!bonds version 2 only'))
     links.append(L([('BB', 0), ('BB', 1)], removed=[('bonds', (0, 1), [], {'ifdef': 'FLEXIBLE'})], edges=[(0, 1)], label='!bonds under ifdef only'))
-    links.append(L([('BB', 0), ('SC1', 0, {'resname': 'GLY'})], replace={1: {'atomname': None}}, label='delete SC1 of GLY'))
+    links.append(L([('BB', 0), ('SC1', 0, {'resname': 'GLY'})], replace={1: {'atomname': None}}, edges=[(0, 1)], label='delete SC1 of GLY'))
+    # the same without the edge: BB and SC1 of ONE residue are always bonded, so this link has no induced placement at all
+    links.append(L([('BB', 0), ('SC1', 0, {'resname': 'GLY'})], replace={1: {'atomname': None}}, label='delete SC1 of GLY (no edge written: never fits)'))
     return links
 
 
@@ -192,7 +199,10 @@ def render(link):
         lines.extend('%s %s' % (keys[a], keys[b]) for a, b in link['edges'])
     if link['non_edges']:
         lines.append('[ non-edges ]')
-        lines.extend('%s %s' % (keys[a], key_of(name, order)) for a, name, order in link['non_edges'])
+        for item in link['non_edges']:
+            a, name, order = item[:3]
+            pattrs = item[3] if len(item) > 3 else {}
+            lines.append('%s %s%s' % (keys[a], key_of(name, order), (' ' + render_attrs(pattrs)) if pattrs else ''))
     if link['patterns']:
         lines.append('[ patterns ]')
         for pattern in link['patterns']:
@@ -234,7 +244,8 @@ def render_param(param, keys):
 
 # ----------------------------------------------------------------------------- molecules
 
-RESIDS = {'consecutive': [1, 2, 3, 4], 'gap': [1, 2, 4, 5], 'descending': [9, 8, 7, 6], 'duplicated': [1, 2, 1, 2]}
+RESIDS = {'consecutive': [1, 2, 3, 4], 'gap': [1, 2, 4, 5], 'descending': [9, 8, 7, 6], 'duplicated': [1, 2, 1, 2],
+          'names-rotated': [1, 2, 3, 4]}      # same numbers as 'consecutive', residue names shifted by one (GLY ALA LYS ALA)
 RESNAMES = ['ALA', 'GLY', 'ALA', 'LYS']
 
 
@@ -248,14 +259,17 @@ def build_molecule(nres, numbering, connectivity, ff):
     for res in range(nres):
         chain = 'A' if (numbering != 'duplicated' or res < 2) else 'B'
         for name, offset in (('BB', (0, 0, 0)), ('SC1', (0, 1, 0))):
+            if name == 'SC1' and ((connectivity == 'linear-gly-bare' and res == 1) or (connectivity == 'linear-first-bare' and res == 0)):
+                continue        # a residue without side chain: the only place where "BB not bonded to SC1" holds
             pos = np.array([2.0 * res + (res % 2) + offset[0], offset[1] + (res // 2), offset[2] + 0.5 * res], dtype=float)
-            mol.add_node(key, atomname=name, resname=RESNAMES[res], resid=RESIDS[numbering][res], chain=chain, position=pos, charge=0)
+            mol.add_node(key, atomname=name, resname=RESNAMES[(res + 1) % 4] if numbering == 'names-rotated' else RESNAMES[res], resid=RESIDS[numbering][res], chain=chain, position=pos, charge=0)
             atoms[(res, name)] = key
             key += 1
-        mol.add_edge(atoms[(res, 'BB')], atoms[(res, 'SC1')])
-        mol.add_interaction('bonds', (atoms[(res, 'BB')], atoms[(res, 'SC1')]), ['1', '0.3', '5000'])
+        if (res, 'SC1') in atoms:
+            mol.add_edge(atoms[(res, 'BB')], atoms[(res, 'SC1')])
+            mol.add_interaction('bonds', (atoms[(res, 'BB')], atoms[(res, 'SC1')]), ['1', '0.3', '5000'])
     backbone = []
-    if connectivity in ('linear', 'ring', 'crosslink'):
+    if connectivity in ('linear', 'ring', 'crosslink', 'linear-gly-bare', 'linear-first-bare'):
         backbone = [(r, r + 1) for r in range(nres - 1)]
     if connectivity == 'ring':
         backbone.append((nres - 1, 0))
@@ -330,9 +344,11 @@ def placements(state, link):
         if not ok:
             continue
         # non-edges
-        for anchor, pname, porder in link['non_edges']:
+        for item in link['non_edges']:
+            anchor, pname, porder = item[:3]
             a_key = combo[anchor]
             want = dict(link['attrs'])
+            want.update(item[3] if len(item) > 3 else {})       # what is written on the non-edge line itself wins over the link header
             want['atomname'] = pname
             for e in state['edges']:
                 if a_key in e:
@@ -447,6 +463,8 @@ def check(nres, numbering, connectivity, link_idxs, acc, sample=False, world=Non
     mol = build_molecule(nres, numbering, connectivity, ff)
     expected = state_of(mol)
     n_place = [len(placements(expected, link)) for link in links]
+    for i, n in zip(link_idxs, n_place):
+        acc.extra['placements_of_link_%d' % i] += n      # vacuity guard: every link of the grammar must fit somewhere
     expected = apply_links(expected, links)
     try:
         with common.LogCapture():
@@ -489,7 +507,8 @@ def check(nres, numbering, connectivity, link_idxs, acc, sample=False, world=Non
 
 GRAMMAR = grammar()
 MOLECULES = [(3, num, con) for num in ('consecutive', 'gap', 'descending', 'duplicated') for con in ('linear', 'ring', 'crosslink')] + \
-            [(4, num, con) for num in ('consecutive', 'gap', 'descending', 'duplicated') for con in ('linear', 'star', 'ring', 'crosslink')]
+            [(4, num, con) for num in ('consecutive', 'gap', 'descending', 'duplicated') for con in ('linear', 'star', 'ring', 'crosslink')] + \
+            [(3, 'consecutive', 'linear-gly-bare'), (4, 'gap', 'linear-gly-bare'), (3, 'consecutive', 'linear-first-bare')]
 
 
 def sequence_case(item, acc):
@@ -539,8 +558,12 @@ def run(ctx):
     acc = Acc()
     for part in common.pmap(work, list(common.chunked(items, max(1, len(items) // 128)))):
         acc += part
+    idle = [GRAMMAR[i]['label'] for i in range(len(GRAMMAR)) if acc.extra.get('placements_of_link_%d' % i, 0) == 0
+            and 'never fits' not in GRAMMAR[i]['label']]
+    if idle:
+        raise common.HarnessError('links of the grammar that fit nowhere in any molecule (vacuous entries): %r' % (idle,))
     ctx.layer('links', acc)
-    pool = [m for m in MOLECULES if m[0] == 3][:4] + [m for m in MOLECULES if m[0] != 3][:2]
+    pool = [m for m in MOLECULES if m[0] == 3][:4] + [m for m in MOLECULES if m[0] != 3][:2] + [(3, 'names-rotated', 'linear'), (4, 'names-rotated', 'star')]
     seqs = []
     for i in range(len(GRAMMAR)):
         for a, b in itertools.permutations(pool, 2):
